@@ -103,7 +103,7 @@ CLAIMS = {
     "C10": dict(
         technique="Lean 4 theorems: slab layout over all sizes (translated), history independence of the code-level matrix model for every prior scratch content + run-time extents hook + overflow-checked correspondence with poisoned slab",
         text="Theorem (all window and needle lengths, both character sizes): the five views MatrixSlab::alloc hands out are inside the slab, pairwise disjoint and aligned; view and layout "
-             "element counts are translated from matrix.rs on every run and the real byte ranges reported by the cfg-gated hook must equal the model's. History independence of the one "
+             "element counts are translated from matrix.rs on every run and the real byte ranges reported by the cfg-gated hook must equal the model's. The size test of MatrixSlab::alloc that selects the matrix path is translated too (Gen/Alloc.lean) and is the model's slabFits (companion file C10_AllocTranslated). History independence of the one "
              "path that keeps state in the slab (companion file C10_Matrix, from C04_Compressed): the code-level model of fuzzy_match_optimal takes the prior content of the score row and of the "
              "back-pointer cells as arguments and returns the same result for every such content (C10_matrix_history_independent: it reads a cell of either only after writing it in the same "
              "call); C10_matrix_indices_in_range: every side condition of the matrix path's index arithmetic (Model/OptImpl.lean: optimalSafe - one conjunct per u16/usize subtraction and per slice "
